@@ -34,6 +34,7 @@ type g struct {
 	ready func() bool
 	done  bool
 	label string
+	vc    []int // vector clock (happens-before tracking for the race check)
 }
 
 type sched struct {
@@ -47,6 +48,11 @@ type sched struct {
 	stall   time.Duration
 	aborted bool
 	live    sync.WaitGroup
+	// happens-before race check over watched objects (Access)
+	acc    map[uintptr]*accHist
+	chClk  map[uintptr]*Clock
+	races  []string
+	raceOn map[string]bool
 }
 
 var s *sched
@@ -55,6 +61,7 @@ var s *sched
 func Active() bool { return s != nil }
 
 type Execution struct {
+	Races    []string // unordered conflicting accesses to watched objects seen in this execution
 	Points   []PointInfo
 	Deadlock bool     // some goroutine blocked forever, nothing enabled
 	Blocked  []string // labels of the goroutines blocked at the end
@@ -69,7 +76,8 @@ func Execute(body func(), choose func(PointInfo) int) *Execution {
 	sc := &sched{yield: make(chan struct{}), choose: choose, stall: 20 * time.Second}
 	s = sc
 	defer func() { s = nil }()
-	main := &g{id: 0, wake: make(chan struct{}), label: "main"}
+	sc.acc, sc.chClk, sc.raceOn = map[uintptr]*accHist{}, map[uintptr]*Clock{}, map[string]bool{}
+	main := &g{id: 0, wake: make(chan struct{}), label: "main", vc: []int{1}}
 	sc.gs = append(sc.gs, main)
 	sc.cur = main
 	sc.live.Add(1)
@@ -152,6 +160,7 @@ func Execute(body func(), choose func(PointInfo) int) *Execution {
 		sc.cur.wake <- struct{}{}
 	}
 	ex.Points = sc.points
+	ex.Races = sc.races
 	// release every parked goroutine so that it unwinds (panic(abort) inside its Point) and wait
 	// for all of them: no managed goroutine survives the execution
 	sc.aborted = true
@@ -229,6 +238,14 @@ func Go(f func()) {
 		return
 	}
 	n := &g{id: len(sc.gs), wake: make(chan struct{}), label: "spawned"}
+	// the child starts with everything the parent has done so far
+	parent := sc.cur
+	n.vc = append([]int(nil), parent.vc...)
+	for len(n.vc) <= n.id {
+		n.vc = append(n.vc, 0)
+	}
+	n.vc[n.id] = 1
+	parent.tick()
 	sc.gs = append(sc.gs, n)
 	sc.live.Add(1)
 	go func() {
@@ -344,7 +361,26 @@ func Select(hasDefault bool, cases ...Case) int {
 	if len(ready) == 0 {
 		return -1
 	}
-	return ready[Pick(len(ready), "select-case")]
+	i := ready[Pick(len(ready), "select-case")]
+	cases[i].sync()
+	return i
+}
+
+// sync records the happens-before edge of the channel operation the caller is about to perform.
+func (c Case) sync() {
+	if s == nil || c.done != nil || !c.ch.IsValid() || c.ch.IsNil() {
+		return
+	}
+	k := s.chClk[c.ch.Pointer()]
+	if k == nil {
+		k = &Clock{}
+		s.chClk[c.ch.Pointer()] = k
+	}
+	if c.send {
+		k.Release()
+	} else {
+		k.Acquire()
+	}
 }
 
 // Send / Recv gate a blocking channel operation outside select.
@@ -354,6 +390,7 @@ func Send(ch interface{}) {
 	}
 	c := SendCase(ch)
 	Point(c.ready, "chan-send")
+	c.sync()
 }
 
 func Recv(ch interface{}, done func() bool) {
@@ -362,4 +399,139 @@ func Recv(ch interface{}, done func() bool) {
 	}
 	c := RecvCase(ch, done)
 	Point(c.ready, "chan-recv")
+	c.sync()
+}
+
+// ---- happens-before tracking and the race check ----
+//
+// Every managed goroutine carries a vector clock; synchronisation objects (vsync mutexes, wait
+// groups, sync.Map, atomics, channels) carry a Clock that the releasing side joins its vector
+// clock into and the acquiring side joins into its own. Access reports two accesses to the same
+// watched object (a Go map reached through an instrumented statement) by different goroutines, at
+// least one of them a write, that are not ordered by happens-before in the execution at hand.
+// Because the explorer enumerates the schedules, an unsynchronised conflicting pair is reported
+// in at least one of them.
+
+type Clock struct{ vc []int }
+
+func join(a, b []int) []int {
+	for len(a) < len(b) {
+		a = append(a, 0)
+	}
+	for i, v := range b {
+		if v > a[i] {
+			a[i] = v
+		}
+	}
+	return a
+}
+
+func (x *g) tick() {
+	for len(x.vc) <= x.id {
+		x.vc = append(x.vc, 0)
+	}
+	x.vc[x.id]++
+}
+
+// Release: everything the running goroutine has done so far happens before whatever a later
+// Acquire of the same Clock is followed by.
+func (c *Clock) Release() {
+	if s == nil {
+		return
+	}
+	me := s.cur
+	c.vc = join(c.vc, me.vc)
+	me.tick()
+}
+
+func (c *Clock) Acquire() {
+	if s == nil {
+		return
+	}
+	me := s.cur
+	me.vc = join(me.vc, c.vc)
+}
+
+// AddrClock is the Clock of a synchronisation variable identified by its address (atomics).
+func AddrClock(p uintptr) *Clock {
+	if s == nil {
+		return &Clock{}
+	}
+	k := s.chClk[p]
+	if k == nil {
+		k = &Clock{}
+		s.chClk[p] = k
+	}
+	return k
+}
+
+type accRec struct {
+	tid, clock int
+	what       string
+}
+
+type accHist struct {
+	write *accRec
+	reads map[int]accRec
+}
+
+func (x *g) after(r accRec) bool { // r happened before x's present
+	return r.tid == x.id || (r.tid < len(x.vc) && x.vc[r.tid] >= r.clock)
+}
+
+// Access records a read or write of a watched object. get returns the object (evaluated here
+// under recover: the instrumented statement may guard it with a nil check the call precedes).
+func Access(get func() interface{}, what string, write bool) {
+	sc := s
+	if sc == nil || sc.aborted {
+		return
+	}
+	var v reflect.Value
+	func() {
+		defer func() { _ = recover() }()
+		v = reflect.ValueOf(get())
+	}()
+	if !v.IsValid() || v.Kind() != reflect.Map || v.IsNil() {
+		return
+	}
+	id := v.Pointer()
+	h := sc.acc[id]
+	if h == nil {
+		h = &accHist{reads: map[int]accRec{}}
+		sc.acc[id] = h
+	}
+	me := sc.cur
+	for len(me.vc) <= me.id {
+		me.vc = append(me.vc, 0)
+	}
+	rec := accRec{me.id, me.vc[me.id], what}
+	report := func(kind string, other accRec) {
+		key := kind + "|" + what + "|" + other.what
+		if !sc.raceOn[key] {
+			sc.raceOn[key] = true
+			a, b := what, other.what
+			if b < a {
+				a, b = b, a
+			}
+			sc.races = append(sc.races, fmt.Sprintf("%s: %s <-> %s (two goroutines, no happens-before order)", kind, a, b))
+		}
+	}
+	if h.write != nil && !me.after(*h.write) {
+		if write {
+			report("concurrent map writes", *h.write)
+		} else {
+			report("concurrent map read and map write", *h.write)
+		}
+	}
+	if write {
+		for _, r := range h.reads {
+			if !me.after(r) {
+				report("concurrent map read and map write", r)
+			}
+		}
+		h.write = &rec
+		h.reads = map[int]accRec{}
+	} else {
+		h.reads[me.id] = rec
+	}
 }
